@@ -136,14 +136,37 @@ func runWithConsumer(f func(ch *chan events.Event) (string, error), capacity, st
 		ech <- ev
 	}
 	close(ech)
-	milestones.GenerateMilestonesFromEvents(&ech, &mch)
 	obs.Milestones = []string{}
-	for m := range mch {
-		neg := ""
-		if m.Duration < 0 {
-			neg = ":negative"
+	genDone := make(chan any, 1)
+	go func() {
+		defer func() { genDone <- recover() }()
+		milestones.GenerateMilestonesFromEvents(&ech, &mch)
+	}()
+	select {
+	case p := <-genDone:
+		if p != nil {
+			obs.Milestones = append(obs.Milestones, fmt.Sprintf("<milestone generator panicked: %v>", p))
 		}
-		obs.Milestones = append(obs.Milestones, string(m.Operation)+neg)
+	case <-time.After(callDeadline(60)):
+		obs.Milestones = append(obs.Milestones, "<milestone generator did not return>")
+		return obs
 	}
-	return obs
+	// the generator has returned: everything it sent is in the buffer, and the channel must be closed
+	for {
+		select {
+		case m, ok := <-mch:
+			if !ok {
+				return obs
+			}
+			neg := ""
+			if m.Duration < 0 {
+				neg = ":negative"
+			}
+			obs.Milestones = append(obs.Milestones, string(m.Operation)+neg)
+			continue
+		default:
+			obs.Milestones = append(obs.Milestones, "<milestone channel not closed>")
+			return obs
+		}
+	}
 }
